@@ -275,6 +275,153 @@ for m in ("__call__", "__method_call__"):
 ben("c13_key_local_rename", [E("helpers.caching._AsyncCache.__call__", lambda n: isinstance(n, ast.AsyncFunctionDef), lambda s: __import__("re").sub(r"\bkey\b", "cache_key", s))], ["C12", "C13"])
 
 
+# =============================================================================================== C04 / C05
+STT = "state.structure.State"
+VALM = "state.validation"
+brk("c04_setattr_allows_private", [E(f"{STT}.__setattr__", lambda n: isinstance(n, ast.Raise), before("if name.startswith('_'):" + NL + "    return object.__setattr__(self, name, value)"))], {"C04": ["C04.1", "C04.2"]})
+brk("c04_delattr_noop", [E(f"{STT}.__delattr__", lambda n: isinstance(n, ast.Raise), to("return None"))], {"C04": ["C04.1"]})
+brk("c04_sequence_returns_input", [E(f"{VALM}._prepare_validator_of_sequence.validator", lambda n: isinstance(n, ast.Return), to("[element_validator(element) for element in elements]" + NL + "return value"))], {"C04": ["C04.3"]})
+brk("c04_set_returns_mutable_set", [E(f"{VALM}._prepare_validator_of_set.validator", expr_has("frozenset(", ast.Call), sub("frozenset(", "set("))], {"C04": ["C04.3"]})
+brk("c04_mapping_proxy_over_input", [E(f"{VALM}._prepare_validator_of_mapping.validator", lambda n: isinstance(n, ast.Return), to("{key_validator(key): value_validator(val) for key, val in elements.items()}" + NL + "return MappingProxyType(value)"))], {"C04": ["C04.3"]})
+brk("c04_replace_kwargs_first", [E(f"{STT}.__replace__", lambda n: isinstance(n, ast.Dict), to("{**kwargs, **vars(self)}"))], {"C04": ["C04.4"]})
+brk("c04_replace_bypasses_validation", [E(f"{STT}.__replace__", lambda n: isinstance(n, ast.Return), to("copy = self.__class__(**vars(self))" + NL + "for key, value in kwargs.items():" + NL + "    object.__setattr__(copy, key, value)" + NL + "return copy"))], {"C04": ["C04.2", "C04.4"]})
+brk("c04_init_rejects_unknown", [E(f"{STT}.__init__", lambda n: isinstance(n, ast.For), before("if set(kwargs) - set(self.__ATTRIBUTES__):" + NL + "    raise TypeError('unknown attributes')"))], {"C04": ["C04.5"]})
+brk("c04_copy_returns_self_dict", [E(f"{STT}.__copy__", lambda n: isinstance(n, ast.Return), to("return self.__class__(**{k: v for k, v in vars(self).items() if v})"))], {"C04": ["C04.6"]})
+brk("c04_deepcopy_shallow", [E(f"{STT}.__deepcopy__", expr_has("deepcopy(", ast.Call), to("value"))], {"C04": ["C04.6"]})
+brk("c04_eq_no_class_guard", [E(f"{STT}.__eq__", lambda n: isinstance(n, ast.If), PASS)], {"C04": ["C04.8"]})
+brk("c04_eq_subset", [E(f"{STT}.__eq__", expr_has("self.__ATTRIBUTES__.keys()", ast.Call), to("list(self.__ATTRIBUTES__.keys())[:1]"))], {"C04": ["C04.8"]})
+brk("c04_not_frozen_for_typecheckers", [E("state.structure.StateMeta", lambda n: isinstance(n, ast.keyword) and n.arg == "frozen_default", to("frozen_default=False"))], {"C04": ["C04.1"]})
+ben("c04_tuple_from_list_comp", [E(f"{VALM}._prepare_validator_of_sequence.validator", lambda n: isinstance(n, ast.Call) and U(n).startswith("tuple("), to("tuple([element_validator(element) for element in elements])"))], ["C04", "C05"])
+brk("c05_unfix_mapping_items", [], {"C05": ["C05.3"]}, note="reverse of fix 0003")
+brk("c05_unfix_get_args_origin", [], {"C05": ["C05.6"]}, note="reverse of fix 0004")
+brk("c05_unfix_class_getitem_spread", [], {"C05": ["C05.7"]}, note="reverse of fix 0005")
+brk("c05_sequence_filter", [E(f"{VALM}._prepare_validator_of_sequence.validator", lambda n: isinstance(n, ast.GeneratorExp), lambda s: s.rstrip(")") + " if element is not None" + (")" if s.endswith(")") else ""))], {"C05": ["C05.2"]})
+brk("c05_sequence_drops_last", [E(f"{VALM}._prepare_validator_of_sequence.validator", lambda n: isinstance(n, ast.GeneratorExp), lambda s: s.replace("in elements", "in elements[:-1]"))], {"C05": ["C05.2"]})
+brk("c05_mapping_crossed", [E(f"{VALM}._prepare_validator_of_mapping.validator", lambda n: isinstance(n, ast.DictComp), lambda s: s.replace("key_validator(key): value_validator(value)", "value_validator(key): key_validator(value)"))], {"C05": ["C05.3"]})
+brk("c05_tuple_no_arity_guard", [E(f"{VALM}._prepare_validator_of_tuple.validator#2", lambda n: isinstance(n, ast.If), PASS)], {"C05": ["C05.4"]})
+brk("c05_tuple_arity_le", [E(f"{VALM}._prepare_validator_of_tuple.validator#2", lambda n: isinstance(n, ast.Compare), sub("!=", ">"))], {"C05": ["C05.4"]})
+brk("c05_union_returns_on_failure", [E(f"{VALM}._prepare_validator_of_union.validator", lambda n: isinstance(n, ast.Raise), to("return value"))], {"C05": ["C05.5"]})
+brk("c05_store_without_validation", [E(f"{STT}.__init__", expr_has("attribute.validated(", ast.Call), lambda s: "kwargs.get(name, attribute.default)")], {"C05": ["C05.1"]})
+brk("c05_defaults_not_validated", [E("state.structure.StateAttribute.validated", lambda n: isinstance(n, ast.Return), to("return self.default if value is MISSING else self.validator(value)"))], {"C05": ["C05.1"]})
+brk("c05_type_validator_accepts_all", [E(f"{VALM}._prepare_validator_of_type.type_validator", lambda n: isinstance(n, ast.Raise), to("return value"))], {"C05": ["C05.9"]})
+brk("c05_none_validator_fallthrough", [E(f"{VALM}._prepare_validator_of_none.validator", lambda n: isinstance(n, ast.Raise), PASS)], {"C05": ["C05.9"]})
+brk("c05_literal_returns_canonical", [E(f"{VALM}._prepare_validator_of_literal.validator", lambda n: isinstance(n, ast.Return), to("return elements[elements.index(value)]"))], {"C05": ["C05.9"]})
+brk("c05_validators_entry_missing", [E(f"mod:{VALM}", lambda n: isinstance(n, ast.Dict) and len(n.keys) > 20, lambda s: s.replace("    NoneType: _prepare_validator_of_none,\n", ""))], {"C05": ["C05.8"]})
+
+# =============================================================================================== C08
+DSP = "context.disposables.Disposables"
+brk("c08_unfix_enter_rollback", [], {"C08": ["C08.5"]}, note="reverse of fix 0008 (needs 0009 reversed first)")
+brk("c08_unfix_single_error", [], {"C08": ["C08.4"]}, note="reverse of fix 0009")
+brk("c08_exit_skips_first", [E(f"{DSP}.__aexit__", lambda n: isinstance(n, ast.ListComp) and "__aexit__" in U(n), lambda s: s.replace("in self._disposables", "in self._disposables[1:]"))], {"C08": ["C08.1"]})
+brk("c08_exit_filtered_on_success", [E(f"{DSP}.__aexit__", lambda n: isinstance(n, ast.ListComp) and "__aexit__" in U(n), lambda s: s[:-1] + " if exc_type is None]")], {"C08": ["C08.1"]})
+brk("c08_exit_exc_dropped", [E(f"{DSP}.__aexit__", lambda n: isinstance(n, ast.ListComp) and "__aexit__" in U(n), lambda s: s.replace("exc_val,", "None,", 1))], {"C08": ["C08.2"]})
+brk("c08_exit_no_return_exceptions", [E(f"{DSP}.__aexit__", expr_has("gather(", ast.Call), sub("return_exceptions=True", "return_exceptions=False"))], {"C08": ["C08.3"]})
+brk("c08_only_exception_collected", [E(f"{DSP}.__aexit__", lambda n: isinstance(n, ast.ListComp) and "isinstance" in U(n), sub("BaseException", "Exception"))], {"C08": ["C08.4"]})
+brk("c08_errors_need_two", [E(f"{DSP}.__aexit__", lambda n: isinstance(n, ast.If) and "len(exceptions) == 1" in U(n.test), lambda s: s.replace("len(exceptions) == 1", "len(exceptions) == 1 and exc_type is None", 1))], {"C08": ["C08.4"]})
+brk("c08_rollback_all_not_entered", [E(f"{DSP}.__aenter__", lambda n: isinstance(n, ast.ListComp) and "__aexit__" in U(n), sub("if not isinstance(result, BaseException)", "if isinstance(result, BaseException)"))], {"C08": ["C08.5"]})
+brk("c08_enter_returns_despite_failure", [E(f"{DSP}.__aenter__", lambda n: isinstance(n, ast.If) and U(n.test) == "exceptions", lambda s: s.replace("if exceptions:", "if len(exceptions) > 1:", 1))], {"C08": ["C08.5"]})
+brk("c08_initialize_enters_twice", [E(f"{DSP}._initialize", lambda n: isinstance(n, ast.Match), before("await disposable.__aenter__()"))], {"C08": ["C08.1"]})
+brk("c08_single_state_dropped", [E(f"{DSP}._initialize", lambda n: isinstance(n, ast.Return) and "single" in U(n), to("return ()"))], {"C08": ["C08.7"]})
+brk("c08_state_not_flattened", [E(f"{DSP}.__aenter__", lambda n: isinstance(n, ast.Return), to("return []"))], {"C08": ["C08.8"]})
+brk("c08_scope_exits_disposables_twice", [E(f"{SC}.__aexit__", stmt("await self._disposables.__aexit__"), after("await self._disposables.__aexit__(exc_type=exc_type, exc_val=exc_val, exc_tb=exc_tb)"))], {"C08": ["C08.6"]})
+
+# =============================================================================================== C10
+brk("c10_unfix_truthiness", [], {"C10": ["C10.4"]}, note="reverse of fix 0013")
+brk("c10_merge_swapped", [E(f"{SM}.record", expr_has("merge(", ast.Call), to("merge(metric, cast(Metric, current))"))], {"C10": ["C10.3"]})
+brk("c10_record_narrow_handler", [E("context.metrics.MetricsContext.record", handler("Exception"), sub("except Exception", "except LookupError"))], {"C10": ["C10.1"]})
+brk("c10_record_outside_try", [E("context.metrics.MetricsContext.record", lambda n: isinstance(n, ast.Try), before("metric_type = type(metric).__qualname__.upper()[0]"))], {"C10": ["C10.1"]})
+brk("c10_record_into_parent_too", [E(f"{SM}.record", lambda n: isinstance(n, ast.If), after("if self._parent is not None:" + NL + "    self._parent.record(metric, merge=merge)"))], {"C10": ["C10.2"]})
+brk("c10_nested_reversed", [E(f"{SM}.metrics", expr_has("for nested in self._nested", ast.GeneratorExp), lambda s: s.replace("in self._nested", "in reversed(self._nested)"))], {"C10": ["C10.5"]})
+brk("c10_nested_insert_front", [E(f"{SM}.__init__", stmt("parent._nested.append(self)"), to("parent._nested.insert(0, self)"))], {"C10": ["C10.5"], "C09": ["C09.5"]})
+brk("c10_metrics_before_tasks", [
+    E(f"{SC}.__aexit__", stmt("self._metrics_context.__exit__"), PASS),
+    E(f"{SC}.__aexit__", stmt("await self._task_group_context.__aexit__"), before("self._metrics_context.__exit__(exc_type=exc_type, exc_val=exc_val, exc_tb=exc_tb)")),
+], {"C10": ["C10.6"]})
+brk("c10_handler_reraises", [E("context.metrics.MetricsContext.record", handler("Exception"), lambda s: s + NL + "    raise")], {"C10": ["C10.1"]})
+brk("c10_merge_not_forwarded", [E("context.access.ctx.record", expr_has("MetricsContext.record", ast.Call), lambda s: s.replace("merge=merge,", "").replace("merge=merge", ""))], {"C10": ["C10.2"]})
+
+# =============================================================================================== C11 (armed parts)
+brk("c11_filter_none_items", [E("context.access.ctx.stream.generator", lambda n: isinstance(n, ast.Expr) and isinstance(n.value, ast.Yield), lambda s: "if result is not None:" + NL + "    " + s)], {"C11": ["C11.3"]})
+brk("c11_scope_inside_loop", [E("context.access.ctx.stream.generator", lambda n: isinstance(n, ast.AsyncWith), to("async for result in source(*args, **kwargs):" + NL + "    async with streaming_context:" + NL + "        yield result"))], {"C11": ["C11.4"]})
+brk("c11_args_dropped", [E("context.access.ctx.stream.generator", expr("source(*args, **kwargs)"), to("source(*args)"))], {"C11": ["C11.3"]})
+brk("c11_swallow_source_error", [E("context.access.ctx.stream.generator", lambda n: isinstance(n, ast.AsyncFor), lambda s: "try:" + NL + "    " + s.replace("\n", "\n    ") + NL + "except Exception:" + NL + "    return")], {"C11": ["C11.3"]})
+brk("c11_scope_built_lazily", [
+    E("context.access.ctx.stream", lambda n: isinstance(n, ast.AnnAssign) and "streaming_context" in U(n.target), PASS),
+    E("context.access.ctx.stream.generator", lambda n: isinstance(n, ast.AsyncWith), sub("async with streaming_context:", "async with ctx.scope(getattr(source, '__name__', 'streaming')):")),
+], {"C11": ["C11.5"]})
+
+# =============================================================================================== C14
+for kind, fq in (("sync", "helpers.retries._wrap_sync.wrapped"), ("async", "helpers.retries._wrap_async.wrapped")):
+    brk(f"c14_guard_le_{kind}", [E(fq, lambda n: isinstance(n, ast.Compare) and "limit" in U(n), sub("<", "<="))], {"C14": ["C14.1"]})
+    brk(f"c14_no_increment_{kind}", [E(fq, stmt("attempt += 1"), PASS)], {"C14": ["C14.1"]})
+    brk(f"c14_double_increment_{kind}", [E(fq, stmt("attempt += 1"), after("attempt += 1"))], {"C14": ["C14.1"]})
+    brk(f"c14_init_one_{kind}", [E(fq, lambda n: isinstance(n, ast.AnnAssign) and U(n.target) == "attempt", sub("= 0", "= 1"))], {"C14": ["C14.1"]})
+    brk(f"c14_wrap_exception_{kind}", [E(fq, lambda n: isinstance(n, ast.Raise) and U(n) == "raise exc", to("raise RuntimeError('retries exhausted') from exc"), nth=-1)], {"C14": ["C14.2"]})
+    brk(f"c14_retry_base_exception_{kind}", [E(fq, handler("Exception"), sub("except Exception", "except BaseException"))], {"C14": ["C14.3"]})
+    brk(f"c14_match_ignored_{kind}", [E(fq, lambda n: isinstance(n, ast.BoolOp) and "limit" in U(n), lambda s: s.split(" and ")[0])], {"C14": ["C14.4"]})
+    brk(f"c14_double_sleep_{kind}", [E(fq, stmt("await sleep(strict)" if kind == "async" else "sleep_sync(strict)"), after("await sleep(strict)" if kind == "async" else "sleep_sync(strict)"))], {"C14": ["C14.6"]})
+    brk(f"c14_delay_args_swapped_{kind}", [E(fq, expr("make_delay(attempt, exc)"), to("make_delay(exc, attempt)"))], {"C14": ["C14.7"]})
+    brk(f"c14_delay_before_increment_{kind}", [
+        E(fq, stmt("attempt += 1"), PASS),
+        E(fq, lambda n: isinstance(n, ast.Match), after("attempt += 1")),
+    ], {"C14": []}, note="counter advanced after the delay function saw it (and `continue` in the None arm skips it)")
+    ben(f"c14_float_or_int_order_{kind}", [E(fq, lambda n: isinstance(n, ast.MatchOr), to("float() | int()"))], ["C14"])
+brk("c14_unfix_int_delay", [], {"C14": ["C14.5"]}, note="reverse of fix 0016")
+brk("c14_single_class_not_normalised", [E("helpers.retries.retry._wrap", lambda n: isinstance(n, ast.IfExp), to("catching"))], {"C14": ["C14.4"]})
+
+# =============================================================================================== C15
+TH = "helpers.throttling._AsyncThrottle.__call__"
+brk("c15_unfix_wait", [], {"C15": ["C15.3"]}, note="reverse of fix 0017")
+brk("c15_call_under_lock", [E(TH, lambda n: isinstance(n, ast.Return), PASS), E(TH, stmt("self._entries.append"), after("return await self._function(*args, **kwargs)"))], {"C15": ["C15.2"]})
+brk("c15_stale_stamp", [E(TH, stmt("self._entries.append"), to("self._entries.append(time_now)"))], {"C15": ["C15.4"]})
+brk("c15_stamp_before_wait", [E(TH, stmt("self._entries.append"), PASS), E(TH, lambda n: isinstance(n, ast.If) and "len(self._entries)" in U(n.test), before("self._entries.append(monotonic())"))], {"C15": ["C15.4"]})
+brk("c15_full_needs_more", [E(TH, lambda n: isinstance(n, ast.Compare) and "len(self._entries)" in U(n), sub(">=", ">"))], {"C15": ["C15.3"]})
+brk("c15_purge_sign", [E(TH, lambda n: isinstance(n, ast.Compare) and "self._period" in U(n) and "len(" not in U(n), sub("<=", ">="))], {"C15": ["C15.5"]})
+brk("c15_purge_without_period", [E(TH, lambda n: isinstance(n, ast.Compare) and "self._period" in U(n) and "len(" not in U(n), sub(" + self._period", ""))], {"C15": ["C15.5"]})
+brk("c15_no_lock", [E(TH, lambda n: isinstance(n, ast.AsyncWith), lambda s: s.replace("async with self._lock:", "if True:", 1))], {"C15": ["C15.1"]})
+brk("c15_timedelta_seconds_attr", [E("helpers.throttling._AsyncThrottle.__init__", expr("delta.total_seconds()"), to("float(delta.seconds)"))], {"C15": ["C15.5"]})
+brk("c15_wait_outside_lock", [
+    E(TH, lambda n: isinstance(n, ast.If) and "len(self._entries)" in U(n.test), PASS),
+    E(TH, lambda n: isinstance(n, ast.Return), before("if len(self._entries) > self._limit:" + NL + "    await sleep(self._entries[0] + self._period - monotonic())")),
+], {"C15": ["C15.1"]})
+ben("c15_now_local_renamed", [E(TH, lambda n: isinstance(n, ast.AsyncFunctionDef), lambda s: s.replace("time_now", "now"))], ["C15"])
+
+# =============================================================================================== C18
+brk("c18_unfix_method_context", [], {"C18": ["C18.2"]}, note="reverse of fix 0020")
+brk("c18_kwargs_dropped_executor", [E("helpers.asynchrony._ExecutorWrapper.__call__", expr_has("partial(", ast.Call), lambda s: s.replace(", **kwargs", ""))], {"C18": ["C18.1"]})
+brk("c18_stored_context", [E("helpers.asynchrony._ExecutorWrapper.__call__", stmt("context: Context"), to("context: Context = _CONTEXT_AT_IMPORT"))], {"C18": ["C18.2"]})
+brk("c18_called_on_loop_thread", [E("helpers.asynchrony._ExecutorWrapper.__call__", lambda n: isinstance(n, ast.Return), to("return self._function(*args, **kwargs)"))], {"C18": ["C18.1"]})
+brk("c18_traced_swallows_exception", [E("helpers.tracing._traced_sync.traced", lambda n: isinstance(n, ast.Raise), to("return None"))], {"C18": ["C18.3"], "C07": []})
+brk("c18_traced_result_not_recorded", [E("helpers.tracing._traced_async.traced", stmt("ctx.record(ResultTrace.of(result))"), PASS)], {"C18": ["C18.4"]})
+brk("c18_traced_args_after_call", [
+    E("helpers.tracing._traced_sync.traced", stmt("ctx.record(ArgumentsTrace.of("), PASS),
+    E("helpers.tracing._traced_sync.traced", stmt("ctx.record(ResultTrace.of(result))"), after("ctx.record(ArgumentsTrace.of(*args, **kwargs))")),
+], {"C18": ["C18.4"]})
+brk("c18_traced_wrong_label", [E("helpers.tracing.traced", expr_has("_traced_sync(", ast.Call), sub("function.__name__", "'traced'"))], {"C18": ["C18.4"]})
+brk("c18_retry_wrapper_not_mimicked", [E("helpers.retries._wrap_sync", lambda n: isinstance(n, ast.Call) and U(n) == "mimic_function(function)", to("(lambda f: f)"))], {"C18": ["C18.5"]}, note="decorator replaced by identity")
+brk("c18_throttle_not_mimicked", [E("helpers.throttling._AsyncThrottle.__init__", stmt("mimic_function(function, within=self)"), PASS)], {"C18": ["C18.5"]})
+brk("c18_mimic_drops_doc", [E("utils.mimic.mimic_function.mimic", lambda n: isinstance(n, ast.Tuple) and "__doc__" in U(n), lambda s: s.replace('"__doc__",', ""))], {"C18": ["C18.6"]})
+brk("c18_mimic_async_no_wrapped", [E("helpers.asynchrony._mimic_async", lambda n: isinstance(n, ast.Expr) and "__wrapped__" in U(n), PASS)], {"C18": ["C18.6"]})
+brk("c18_wrap_async_args", [E("helpers.asynchrony.wrap_async.async_function", lambda n: isinstance(n, ast.Return), lambda s: s.replace("(*args, **kwargs)", "(*args)"))], {"C18": ["C18.1"]})
+
+# =============================================================================================== C19
+MCX = "context.metrics.MetricsContext"
+brk("c19_unfix_trace_inheritance", [], {"C19": ["C19.4"]}, note="reverse of fix 0014")
+brk("c19_unfix_percent_prefix", [], {"C19": ["C19.6"]}, note="reverse of fix 0015")
+brk("c19_warning_as_info", [E(f"{MCX}.log_warning", expr_has("cls._context.get().log(", ast.Call), sub("WARNING", "INFO"))], {"C19": ["C19.1"]})
+brk("c19_debug_root_level", [E(f"{MCX}.log_debug", expr_has("getLogger().log(", ast.Call), sub("DEBUG", "INFO"))], {"C19": ["C19.1"]})
+brk("c19_exception_dropped", [E(f"{MCX}.log_error", expr_has("cls._context.get().log(", ast.Call), lambda s: s.replace("exception=exception,", "").replace("exception=exception", ""))], {"C19": ["C19.1"]})
+brk("c19_root_logger_named", [E(f"{MCX}.log_info", expr_has("getLogger().log(", ast.Call), sub("getLogger()", "getLogger('haiway')"))], {"C19": ["C19.2"]})
+brk("c19_fallback_on_any_error", [E(f"{MCX}.log_info", handler("LookupError"), sub("except LookupError", "except Exception"))], {"C19": ["C19.2"]})
+brk("c19_nested_logger_not_inherited", [E(f"{MCX}.scope", expr_has("logger=logger or current._logger", ast.Call), sub("logger=logger or current._logger", "logger=logger"))], {"C19": ["C19.3"]})
+brk("c19_given_logger_ignored", [E(f"{SM}.__init__", lambda n: isinstance(n, ast.BoolOp) and "getLogger" in U(n), to("getLogger(name=scope)"))], {"C19": ["C19.3"]})
+brk("c19_parent_trace_wins", [E(f"{MCX}.scope", expr_has("trace_id or current.trace_id", ast.BoolOp), to("current.trace_id or trace_id"))], {"C19": ["C19.4"]})
+brk("c19_identifier_reused", [E(f"{SM}.__init__", lambda n: isinstance(n, ast.AnnAssign) and "self.identifier" in U(n.target), sub("uuid4().hex", "self.trace_id"))], {"C19": ["C19.4"]})
+brk("c19_prefix_without_identifier", [E(f"{SM}.__init__", lambda n: isinstance(n, ast.IfExp) and "_logger_prefix" not in U(n) and "identifier" in U(n), lambda s: s.replace(" [{self.identifier}]", ""))], {"C19": ["C19.5"]})
+brk("c19_args_not_forwarded", [E(f"{SM}.log", expr_has("self._logger.log(", ast.Call), lambda s: s.replace("*args,", ""))], {"C19": ["C19.5"]})
+brk("c19_escape_only_without_args", [E(f"{SM}.log", lambda n: isinstance(n, ast.IfExp), sub("if args else", "if not args else"))], {"C19": ["C19.6"]})
+ben("c19_prefix_as_argument", [E(f"{SM}.log", lambda n: isinstance(n, ast.IfExp), lambda s: s)], ["C19"])
+
 # ----------------------------------------------------------------------------------------------- patch-reversal variants
 REVERSALS = {
     "c02_unfix_cleanup_sequencing": "0006",
@@ -286,6 +433,17 @@ REVERSALS = {
     "c17_unfix_lost_handoff": "0019",
     "c20_unfix_reduce": "0001",
     "c01_unfix_cached_default": "0002",
+    "c05_unfix_mapping_items": "0003",
+    "c05_unfix_get_args_origin": "0004",
+    "c05_unfix_class_getitem_spread": "0005",
+    "c08_unfix_enter_rollback": "0009,0008",
+    "c08_unfix_single_error": "0009",
+    "c10_unfix_truthiness": "0013",
+    "c19_unfix_trace_inheritance": "0014",
+    "c19_unfix_percent_prefix": "0015",
+    "c14_unfix_int_delay": "0016",
+    "c15_unfix_wait": "0017",
+    "c18_unfix_method_context": "0020",
 }
 WHOLE_FILE = {"c17_reformat": "utils/queue.py"}
 
